@@ -60,6 +60,7 @@ pub fn scenario(acc: &mut Acc, seed: u64, index: u64, tier: Tier) {
     };
     acc.count("programs", 1);
     let moves0 = alloc::moves();
+    let scattered0 = alloc::scattered();
 
     let ref_budget = if tier == Tier::Thorough { 40_000 } else { 12_000 };
     let p0 = plan(CollectPlan::Shipped, alloc::PLAIN, ref_budget, false);
@@ -113,6 +114,9 @@ pub fn scenario(acc: &mut Acc, seed: u64, index: u64, tier: Tier) {
         }
         variants.push((sched, mode, every_audit));
     }
+    // one more, without drawing: the shipped schedule with the boxes scattered over all alignments
+    // the layout allows (alloc.rs, SCATTER) - an outcome must not depend on the low bits of an address
+    variants.push((CollectPlan::Shipped, alloc::SCATTER0 + (mix(seed, TAG, index ^ 0x5CA7) % 200) as u8, false));
     for (sched, mode, every_audit) in variants {
         let p = plan(sched.clone(), mode, budget, every_audit);
         acc.begin(&spec::eval_spec("heap-sim", src, &p));
@@ -120,7 +124,7 @@ pub fn scenario(acc: &mut Acc, seed: u64, index: u64, tier: Tier) {
         acc.count("runs", 1);
         acc.count("sim_steps", r.steps);
         acc.count(&format!("variant_schedule:{}", sched.name()), 1);
-        acc.count(&format!("variant_allocator:{}", alloc::mode_name(mode)), 1);
+        acc.count(&format!("variant_allocator:{}", alloc::mode_class(mode)), 1);
         lf.u64(r.log_hash);
         account(acc, &r, true);
         report(acc, CLASSES, PROPERTY, "heap-sim", src, &p, &r, seed, index);
@@ -183,6 +187,7 @@ pub fn scenario(acc: &mut Acc, seed: u64, index: u64, tier: Tier) {
         }
     }
     acc.count("fault_allocator_realloc_moved", alloc::moves() - moves0);
+    acc.count("fault_allocator_blocks_scattered", alloc::scattered() - scattered0);
     acc.log(index, lf.0);
 }
 
